@@ -270,8 +270,10 @@ func NonLin(o Op, rounds, goroutines int, timeout time.Duration, out *Out) {
 			return
 		}
 		if v := first.Load(); v != nil {
-			out.Violation(fmt.Sprintf("nonlin: %s %s: %d goroutines each call AddValidator(0,K0),(1,K1),.. in order; every sequential order returns (same cache, nil) for every call; observed: %s",
-				o.Name(), "check-then-act", goroutines, v.(string)))
+			if out.Violation(fmt.Sprintf("nonlin: %s check-then-act: %d goroutines each make the same calls (index 0, 1, 2, .. in order); every sequential order returns ok (same object, no error) for every call, one call returned something else",
+				o.Name(), goroutines)) {
+				out.Note("first occurrence: " + v.(string))
+			}
 		}
 	}
 	out.Stat("nonlin_calls", calls)
